@@ -103,6 +103,11 @@ def run(ctx) -> None:
     r18_4(ctx)
     r18_5(ctx)
     r18_6(ctx)
+    from . import c08
+    from .common import Relabel
+    ctx.rule("R18.7", "leaving a scoped_iter block closes the real iterator on every path, whatever state a cancelled step left the "
+                      "wrapper in (R08.3, shared)")
+    c08.r08_3(Relabel(ctx, "R18.7"))
 
 
 def r18_2(ctx) -> None:
